@@ -107,6 +107,8 @@ def ref_body_size(kind, method, status, te, cl):
 
 
 def check(ctx):
+    ctx.exhaustive = True
+    ctx.bounds.append("loops unrolled once in path enumeration; the two decision tables enumerate their abstract domains completely; the HttpStream model is explored to a fix-point")
     ctx.rule("R01.1", "expected_http_body_size decision table == RFC 9112 6.3")
     ctx.rule("R01.2", "validate_headers rejection set == reference; regex languages == RFC grammar; TE vocabulary")
     ctx.rule("R01.3", "validation happens before anything is forwarded; rejection path shape; validate_headers called iff option on")
